@@ -447,7 +447,8 @@ func ballotsValue(kind string, height int64) []byte {
 	switch kind {
 	case "true-stale":
 		return serialize(stackitem.NewArray([]stackitem.Item{mk(0)}))
-	case "true-pending":
+	case "true-pending", "true-age20", "true-age21":
+		// for the two boundary kinds the height is rewritten right before the update (ballotAtAge)
 		return serialize(stackitem.NewArray([]stackitem.Item{mk(height)}))
 	}
 	return serialize(stackitem.NewArray([]stackitem.Item{}))
@@ -665,6 +666,27 @@ func runSynthetic(b *runner.Batch, art string, vr variant, containers int) {
 		b.Inconclusive(err.Error())
 		return
 	}
+	// ballots exactly 20 (still live: the upgrade must be refused) and 21 (stale: purged) blocks old when the
+	// update transaction runs (seeded change C16-5: the two sites that judge a ballot's age disagree at 20)
+	if _, has := legacy["ballots"]; has && (vr.notary == "true-age20" || vr.notary == "true-age21") {
+		age := int64(20)
+		if vr.notary == "true-age21" {
+			age = 21
+		}
+		for w.Height() < 30 {
+			w.EmptyBlocks(1)
+		}
+		cur := int64(w.Height())
+		// this poke is block cur+1, the update runs in block cur+2 and sees ledger.CurrentIndex() = cur+1
+		if err := e.poke(B.Hash, map[string][]byte{"ballots": ballotsValue(vr.notary, cur+1-age)}); err != nil {
+			b.Inconclusive(err.Error())
+			return
+		}
+		if int64(w.Height()) != cur+1 {
+			b.Inconclusive("the ballot rewrite took more than one block")
+			return
+		}
+	}
 	ref := snapshot(w, art, A.Hash, curA)
 	if art == "alphabet" {
 		delete(ref, "gas[]")
@@ -680,7 +702,7 @@ func runSynthetic(b *runner.Batch, art string, vr variant, containers int) {
 	}
 	w.SysFee = 150_0000_0000
 	b.Tx(1)
-	pending := hasNotarySwitch[art] && art != "audit" && vr.v < 17_000 && vr.notary == "true-pending"
+	pending := hasNotarySwitch[art] && art != "audit" && vr.v < 17_000 && (vr.notary == "true-pending" || vr.notary == "true-age20")
 	inRange := vs.prev <= vr.v && vr.v < vs.cur
 	expOK := inRange && !pending
 	det := map[string]any{"contract": art, "reported_version": vr.v, "notary_flag": vr.notary, "legacy_keys": vr.legacyKeys, "tx": w.RenderResult(tr, true), "oldest_supported": vs.prev, "new_version": vs.cur}
@@ -705,6 +727,9 @@ func runSynthetic(b *runner.Batch, art string, vr variant, containers int) {
 			b.Violation(fmt.Sprintf("%s: a refused upgrade changed something", art), det)
 		}
 		b.Hit("bounds-refused:" + cls)
+		if cls == "pending-vote" && vr.notary == "true-age20" {
+			b.Hit("bounds-refused:pending-vote-aged-20-blocks")
+		}
 	} else {
 		after := snapshot(w, art, B.Hash, w.Dump(B.ID))
 		delete(after, "gas[]")
@@ -827,7 +852,7 @@ func versionList(vs versions) []int64 {
 	return []int64{0, vs.prev - 1, vs.prev, vs.prev + 1, 15_999, 16_000, 16_999, 17_000, 17_999, 18_000, 18_999, 19_000, 19_999, vs.cur - 1, vs.cur, vs.cur + 1, 1 << 31}
 }
 
-var notaryKinds = []string{"absent", "false", "true-empty", "true-stale", "true-pending"}
+var notaryKinds = []string{"absent", "false", "true-empty", "true-stale", "true-pending", "true-age20", "true-age21"}
 
 // ---- batches
 
@@ -961,7 +986,7 @@ func init() {
 		Helpers: []string{"probe", "shim"}, Chunk: 2,
 		Prepare: prepareLow,
 		Floors: []string{"gate-refused:nobody", "gate-refused:half-committee", "gate-refused:single-member", "gate-refused:alphabet", "gate-refused:chain-majority", "gate-refused:inner-ring-majority", "gate-accepted:balance", "gate-accepted:container", "gate-accepted:netmap", "gate-accepted:nns", "gate-accepted:neofs", "gate-accepted:processing", "gate-accepted:proxy", "gate-accepted:alphabet", "gate-accepted:audit", "gate-accepted:neofsid", "gate-accepted:reputation", "gate-same-version-refused", "gate-same-version-refused-with-caller-data", "update-with-leading-caller-data", "gate-refused:dismissed-inner-ring-majority", "gate-accepted-after-rotation", "netmap-history-of-12-filled", "netmap-history-of-3-filled",
-			"bounds-refused:too-old", "bounds-refused:not-older", "bounds-refused:pending-vote", "upgrade-ok:<0.16", "upgrade-ok:<0.17", "upgrade-ok:<0.18", "upgrade-ok:<0.19", "upgrade-ok:<0.20", "notary-flag:true-stale", "notary-flag:true-empty", "notary-flag:false", "version-bounds:nns", "version-bounds:balance", "dump-upgraded"},
+			"bounds-refused:too-old", "bounds-refused:not-older", "bounds-refused:pending-vote", "upgrade-ok:<0.16", "upgrade-ok:<0.17", "upgrade-ok:<0.18", "upgrade-ok:<0.19", "upgrade-ok:<0.20", "notary-flag:true-stale", "notary-flag:true-age21", "bounds-refused:pending-vote-aged-20-blocks", "notary-flag:true-empty", "notary-flag:false", "version-bounds:nns", "version-bounds:balance", "dump-upgraded"},
 		Run: runC16,
 	})
 }
